@@ -13,7 +13,10 @@ heap `cell id -> (value, trainable flag)`; `trainable_vars`, `complex_vars`, `sa
 dicts / lists.  `step` follows `tf_pwa/variable.py` statement by statement.
 
 `Cfg` selects between the behaviour of the unchanged tree and the behaviour after the proposed patches
-(`fix_set_same_merge.diff`, `fix_std_polar_angle.diff`); the harness observes which one the tree has.
+(`fix_set_same_merge.diff`, `fix_std_polar_angle.diff`, `fix_C08_standard_complex_free_only.diff`,
+`fix_C08_set_bound_free_name.diff`); the harness observes which one the tree has.  The third C08 repair
+(`fix_C08_standard_complex_bounded.diff`) is the `bounded` argument of `standardComplex`: `standard_complex()` as a public
+call (`Op.standardComplex`) passes none, `fit_scipy` passes the names of its `bounds_dict` (`Fit.Fix.stdBounded`).
 -/
 namespace TfPwaV.Vars
 
@@ -48,6 +51,12 @@ structure Cfg where
   fixSame : Bool
   /-- `std_polar` stores `_std_polar_angle(p)` (tree after `fix_std_polar_angle.diff`) -/
   fixStd : Bool
+  /-- `standard_complex` skips a complex variable unless BOTH parts are free names, i.e. in `trainable_vars`
+  (tree after `fix_C08_standard_complex_free_only.diff`) -/
+  stdFree : Bool := false
+  /-- `set_bound` registers a bound under `bound_name(name)`: the first entry of the `same_list` group of the name
+  (tree after `fix_C08_set_bound_free_name.diff`) -/
+  boundHead : Bool := false
 deriving Repr, DecidableEq
 
 structure Cell (V : Type) where
@@ -178,6 +187,16 @@ def setFix (A : Arith V) (s : State V) (name : Name) (val : Option V) (unfix : B
 /-- `set_bound` (built-in transforms only) -/
 def setBound (s : State V) (b : Dict (Option V × Option V)) : State V :=
   { s with bnd := b.foldl (fun acc kv => dset acc kv.1 kv.2) s.bnd }
+
+/-- `bound_name` (after `fix_C08_set_bound_free_name.diff`): `for i in same_list: if name in i: return i[0]`, else `name` -/
+def boundName (s : State V) (n : Name) : Name :=
+  match s.same.find? (fun g => g.contains n) with
+  | some g => g.headD n
+  | none => n
+
+/-- the dict `set_bound` works on: the one it is given (unchanged tree) / every key replaced by its `bound_name` -/
+def routeBounds (cfg : Cfg) (s : State V) (b : Dict (Option V × Option V)) : Dict (Option V × Option V) :=
+  if cfg.boundHead then b.map (fun kv => (boundName s kv.1, kv.2)) else b
 
 /-- `get` -/
 def getV (A : Arith V) (s : State V) (name : Name) (valInFit : Bool) : Option V :=
@@ -349,13 +368,16 @@ def stdPolar (A : Arith V) (cfg : Cfg) (s : State V) (name : Name) : State V × 
       (s3, true)
     | _, _ => (s1, false)
 
-/-- `standard_complex` -/
-def standardComplex (A : Arith V) (cfg : Cfg) (s : State V) : State V × Bool :=
+/-- `standard_complex(bounded)`; `bounded = []` and `cfg.stdFree = false`: the unchanged tree.  The two repairs only
+add reasons to skip a variable (`continue`): a part that is not a free name (`cfg.stdFree`), a part named in `bounded` -/
+def standardComplex (A : Arith V) (cfg : Cfg) (s : State V) (bounded : List Name := []) : State V × Bool :=
   forNames (fun s k =>
     match dget s.cplx k with
     | some true =>
       let hasC := s.same.any (fun g => g.contains (k ++ "r") || g.contains (k ++ "i"))
         || dhas s.bnd (k ++ "r") || dhas s.bnd (k ++ "i")
+        || bounded.contains (k ++ "r") || bounded.contains (k ++ "i")
+        || (cfg.stdFree && !(decide (k ++ "r" ∈ s.trainable) && decide (k ++ "i" ∈ s.trainable)))
       if hasC then (s, true) else stdPolar A cfg s k
     | _ => (s, true)) s (dkeys s.cplx)
 
@@ -422,7 +444,7 @@ def step (A : Arith V) (cfg : Cfg) (s : State V) : Op V → State V × Out V
       let r := setSame cfg s2 (names.map (· ++ "r")) false
       let s3 := r.1
       ({ s3 with cplx := r.2.foldl (fun acc n => dset acc (n.dropEnd 1).toString true) s3.cplx }, .names r.2)
-  | .setBound b => (setBound s b, .none)
+  | .setBound b => (setBound s (routeBounds cfg s b), .none)
   | .removeBound => ({ s with bnd := [] }, .names (dkeys s.bnd))
   | .set name v vif => (setV A s name v vif, .none)
   | .setAllDict d vif => (setAllDict A s d vif, .none)
@@ -437,7 +459,7 @@ def step (A : Arith V) (cfg : Cfg) (s : State V) : Op V → State V × Out V
   | .xy2rpAll => let r := forNames (xy2rp A) s (dkeys s.cplx); okOut ({ r.1 with polar := if r.2 then true else r.1.polar }, r.2)
   | .stdPolar c => okOut (stdPolar A cfg s c)
   | .stdPolarAll => okOut (forNames (stdPolar A cfg) s (dkeys s.cplx))
-  | .standardComplex => okOut (standardComplex A cfg s)
+  | .standardComplex => okOut (standardComplex A cfg s [])
   | .transParams pol =>
     if pol then okOut (forNames (stdPolar A cfg) s (dkeys s.cplx))
     else let r := forNames (rp2xy A) s (dkeys s.cplx); okOut ({ r.1 with polar := if r.2 then false else r.1.polar }, r.2)
